@@ -165,6 +165,7 @@ func (s *IndexedState) Load(ctx *Context) error {
 		Log(ERROR, ctx, "IndexedState.Load", "location", s.Name, "error", err, "when", "Store.Load")
 		return err
 	}
+	var expired []string
 	for _, pair := range pairs {
 		id := string(pair.K)
 		bs := pair.V
@@ -183,10 +184,22 @@ func (s *IndexedState) Load(ctx *Context) error {
 					Log(ERROR, ctx, "IndexedState.Load", "location", s.Name, "error", err, "when", "rem", "id", id)
 					return err
 				}
+				expired = append(expired, id)
 			} else {
 				Log(ERROR, ctx, "IndexedState.Load", "location", s.Name, "error", err, "when", "Store.Add", "pair", pair)
 				return err
 			}
+		}
+	}
+
+	// What was to be deleted with an expired fact (its properties,
+	// the facts that name it in deleteWith) goes with it, as it
+	// does when the expiration is noticed later.  (Now that all
+	// facts are loaded.)
+	for _, id := range expired {
+		if err := s.deleteDependencies(ctx, id); err != nil {
+			Log(ERROR, ctx, "IndexedState.Load", "location", s.Name, "error", err, "when", "deleteDependencies", "id", id)
+			return err
 		}
 	}
 
